@@ -59,17 +59,19 @@ From Coq Require Import String.
 From MR Require Import Lib.Bytes Lib.Val Model.RunPaths Proofs.RunPathsProof.
 Definition C12_confinement_statement (accepted : str -> bool) : Prop :=
   forall runs slot command hash, single_component slot = true -> single_component hash = true -> accepted command = true ->
-    log_dir runs slot command hash = runs ++ [slot; command; hash].
+    log_dir runs slot command hash = runs ++ [slot; command; hash] /\
+    runs ++ [slot; command] <> runs ++ [slot; result_file_name].     (* nor does the command's directory take the result file's place *)
 
 Theorem C12_confinement_holds : C12_confinement_statement name_accepted.
 Proof.
-  intros runs slot command hash Hs Hh Ha. apply log_dir_in_slot; auto. apply name_accepted_iff. exact Ha.
+  intros runs slot command hash Hs Hh Ha. split; [|apply command_dir_not_result_file; exact Ha].
+  apply log_dir_in_slot; auto. apply name_accepted_iff. exact Ha.
 Qed.
 
 Example C12_confinement_nonvacuous :
   name_accepted (bs "build"%string) = true /\ name_accepted (bs "ok.name"%string) = true /\
   name_accepted (bs "../4/hello"%string) = false /\ name_accepted (bs "x/y"%string) = false /\ name_accepted (bs "a/"%string) = false /\
-  name_accepted (bs ".."%string) = false /\ name_accepted (bs "."%string) = false /\ name_accepted (bs "/abs"%string) = false /\ name_accepted [] = false.
+  name_accepted (bs "result.json.zst"%string) = false /\ name_accepted (bs ".."%string) = false /\ name_accepted (bs "."%string) = false /\ name_accepted (bs "/abs"%string) = false /\ name_accepted [] = false.
 Proof. vm_compute. repeat split. Qed.
 
 Print Assumptions C12_confinement_holds.
